@@ -195,7 +195,7 @@ class VCSAPI:
 
         dirty_files: typ.List[str] = []
         for status, filepath in status_items:
-            filepath     = filepath.strip()
+            # NOTE: not stripped again, blanks of a quoted name are part of the name
             is_untracked = status in ("??", "?")
             if is_untracked and filepath.endswith("/"):
                 # NOTE: git reports a directory with only untracked files as one entry
